@@ -7,7 +7,7 @@ use checks::td::{self, Agg, Dg};
 use serde_json::json;
 
 /// structured digests: n values of a shape inserted in an order, read schedule
-fn structured(kind: usize, delta: f64, backlog: usize, n: usize, shape: usize, nq: usize) -> (u64, Option<(String, String)>) {
+fn structured(kind: usize, delta: f64, backlog: usize, n: usize, shape: usize, nq: usize, wscale: f64) -> (u64, Option<(String, String)>) {
     let mut d = Dg::new(kind, delta, backlog);
     let mut agg = Agg::default();
     for i in 0..n {
@@ -20,8 +20,12 @@ fn structured(kind: usize, delta: f64, backlog: usize, n: usize, shape: usize, n
             2 => (uj * 10.0).floor(),
             _ => if u < 0.5 { 1.0 } else { 1.0 + uj * 1e-3 },
         };
-        d.insert(v);
-        agg.add(v, 1.0);
+        if wscale == 1.0 {
+            d.insert(v);
+        } else {
+            d.insert_weighted(v, wscale);
+        }
+        agg.add(v, wscale);
     }
     let mut evals = 0;
     let c = d.clone();
@@ -46,14 +50,18 @@ fn main() {
             }
         }
     }
-    let res = par_map(&jobs, n_threads(), |&(k, d, b)| td::tree(k, d, b, depth, 15, nq));
+    // the same alphabet with every weight multiplied by 2^-900 / 2^900 (one level shallower): total weights
+    // far below f64::EPSILON and far above 2^53
+    let jobs: Vec<(usize, f64, usize, f64, usize)> = jobs.iter().map(|&(k, d, b)| (k, d, b, 1.0, depth))
+        .chain(td::wscales().iter().flat_map(|&ws| jobs.iter().map(move |&(k, d, b)| (k, d, b, ws, depth - 1)))).collect();
+    let res = par_map(&jobs, n_threads(), |&(k, d, b, ws, dep)| td::tree_scaled(k, d, b, dep, 15, nq, ws));
     let (mut nodes, mut evals) = (0u64, 0u64);
-    for ((k, d, b), out) in jobs.iter().zip(res) {
+    for ((k, d, b, ws, _), out) in jobs.iter().zip(res) {
         nodes += out.nodes;
         evals += out.evals;
         for (sig, msg, hist) in out.viols {
-            run.violation(Viol { property: "C15".into(), signature: format!("tdigest {}", sig), message: format!("{}(delta={}) backlog={}: {}", td::KIND_NAMES[*k], d, b, msg),
-                replay: json!({"structure": "TDigest", "scale_function": td::KIND_NAMES[*k], "delta": d, "max_backlog_size": b, "history": hist.iter().map(|&o| td::op_name(o)).collect::<Vec<_>>()}) });
+            run.violation(Viol { property: "C15".into(), signature: format!("tdigest {}", sig), message: format!("{}(delta={}) backlog={} weights x{:e}: {}", td::KIND_NAMES[*k], d, b, ws, msg),
+                replay: json!({"structure": "TDigest", "scale_function": td::KIND_NAMES[*k], "delta": d, "max_backlog_size": b, "every_weight_multiplied_by": ws, "history": hist.iter().map(|&o| td::op_name(o)).collect::<Vec<_>>()}) });
         }
     }
     // structured digests (outer centroids with weight > 1)
@@ -63,20 +71,25 @@ fn main() {
             for backlog in [0usize, 10, 1000] {
                 for n in if thorough { vec![10usize, 100, 1000, 20000] } else { vec![10, 100, 1000] } {
                     for shape in 0..8 {
-                        sjobs.push((kind, delta, backlog, n, shape));
+                        sjobs.push((kind, delta, backlog, n, shape, 1.0));
+                        if n == 100 || (thorough && n == 1000) {
+                            for ws in td::wscales() {
+                                sjobs.push((kind, delta, backlog, n, shape, ws));
+                            }
+                        }
                     }
                 }
             }
         }
     }
-    let sres = par_map(&sjobs, n_threads(), |&(k, d, b, n, s)| structured(k, d, b, n, s, 256));
+    let sres = par_map(&sjobs, n_threads(), |&(k, d, b, n, s, ws)| structured(k, d, b, n, s, 256, ws));
     let mut sn = 0u64;
-    for ((k, d, b, n, s), (e, bad)) in sjobs.iter().zip(sres) {
+    for ((k, d, b, n, s, ws), (e, bad)) in sjobs.iter().zip(sres) {
         sn += 1;
         evals += e;
         if let Some((sig, msg)) = bad {
-            run.violation(Viol { property: "C15".into(), signature: format!("tdigest {}", sig), message: format!("{}(delta={}) backlog={} n={} shape={}: {}", td::KIND_NAMES[*k], d, b, n, s, msg),
-                replay: json!({"structure": "TDigest", "scale_function": td::KIND_NAMES[*k], "delta": d, "max_backlog_size": b, "n": n, "shape": (["uniform*100", "exponential", "ten atoms", "atom + cliff"][s / 2]), "order": (if s % 2 == 0 { "ascending" } else { "descending" }), "values": "v_i = shape((j+0.5)/n), j = i or n-1-i"}) });
+            run.violation(Viol { property: "C15".into(), signature: format!("tdigest {}", sig), message: format!("{}(delta={}) backlog={} n={} shape={} weight={:e}: {}", td::KIND_NAMES[*k], d, b, n, s, ws, msg),
+                replay: json!({"structure": "TDigest", "scale_function": td::KIND_NAMES[*k], "delta": d, "max_backlog_size": b, "n": n, "weight_of_every_insert": ws, "shape": (["uniform*100", "exponential", "ten atoms", "atom + cliff"][s / 2]), "order": (if s % 2 == 0 { "ascending" } else { "descending" }), "values": "v_i = shape((j+0.5)/n), j = i or n-1-i"}) });
         }
     }
     run.ev.set("states", json!(nodes + sn));
@@ -89,7 +102,7 @@ fn main() {
     run.ev.set("grid", json!(nq));
     run.ev.set("exhaustive", json!(true));
     run.ev.set("samples", json!([{"config": "K1(delta=2) backlog=0", "history": ["insert(1.0)", "insert(2.5)", "insert(2.5)", "insert_weighted(-3.0, 1e-6)"], "checked": "quantile monotone/bounded on the q grid, quantile(0)=min, quantile(1)=max, cdf monotone/in [0,1]/0 below min/1 from max, cdf(quantile(q)) within the largest centroid share of q, reads idempotent"}]));
-    run.ev.set("rule", json!("oracle on a clone of every digest reached by every operation sequence up to the depth (5 unit inserts, 8 weighted inserts, reads, clear) for 4 scale functions x 4 deltas x 3 backlogs, plus structured digests (4 shapes x 2 orders x n up to 20000)"));
+    run.ev.set("rule", json!("oracle on a clone of every digest reached by every operation sequence up to the depth (5 unit inserts, 8 weighted inserts, reads, clear) for 4 scale functions x 4 deltas x 3 backlogs, the same trees one level shallower with every weight multiplied by 2^-900 and by 2^900, plus structured digests (unit weight; n=100 also with weights 2^-900 / 2^900) (4 shapes x 2 orders x n up to 20000)"));
     run.ev.assume("release semantics (debug assertions off): the interpolation helper debug_assert!s exact bounds while the property tolerates a few ulps (DESIGN.md 2.4)");
     run.ev.assume("tolerance: 8 ulps of max(|min|,|max|,range) scaled by total weight / smallest weight, as the property allows");
     run.finish();
